@@ -84,6 +84,25 @@ def x_div_neg_size(n: size, x: f32[2 * n + 8], y: f32[n]):
         y[i] = x[(n - 8) / 4 + 2 + i]
 ''')
 
+# a window STATEMENT with a leading point over a 3-d window argument whose inner strides are asserted constant
+# (seeded change C02_4 carried _known_strides to the new window under the SOURCE dimension numbers)
+_add("x_win3_known_strides", '''
+@proc
+def plane(b: index, dst: f32[3, 4], A: [f32][2, 3, 4]):
+    assert b >= 0 and b < 2
+    assert stride(A, 1) == 8
+    assert stride(A, 2) == 1
+    w = A[b, :, :]
+    for i in seq(0, 3):
+        for j in seq(0, 4):
+            dst[i, j] = w[i, j]
+
+@proc
+def x_win3_known_strides(b: index, dst: f32[3, 4], buf: f32[2, 3, 8]):
+    assert b >= 0 and b < 2
+    plane(b, dst, buf[:, :, 0:4])
+''')
+
 _add("x_div_neg_bound", '''
 @proc
 def x_div_neg_bound(n: size, k: index, x: f32[n + 8]):
